@@ -20,8 +20,18 @@
    Left open (decided = FALSE; only compared with the code-shaped expectation l1 as DRIFT):
      a last custom-syntax field ending in "#feedbackplay" (undocumented client quirk that the code
      strips), standard syntax without m or with another mode, malformed ids, an empty user name in a
-     Link header (nothing is written), Bearer values with two or more colons, several Authorization
-     headers, malformed base64, lower-case scheme names.                                         *)
+     Link header (nothing is written), Bearer values with two or more colons, malformed base64,
+     lower-case scheme names.
+   Several Authorization values in one request (Admitted / Bare below): every value yields what its
+   kind says (a malformed Basic value yields nothing). The statement's sentence gives three
+   alternatives for the result, so the result has to be the yield of ONE value, never a mixture
+   (Bare); among values of the same scheme it does not say which one counts (open). Between a
+   Basic and a Bearer value the check decides for the Bearer one (BearerOverBasicDecided): the
+   documentation introduces "Authorization: Bearer" as the channel for clients that cannot use
+   Basic, the sentence names 'Bearer user:pass' credentials and the bearer token as the two things
+   a Bearer value yields, and the repository's own pinned case "user and pass and token" makes a
+   Bearer token displace a Basic value -- so a Bearer user:pass must not be displaced by a Basic
+   value either, whatever the order of the values.                                            *)
 EXTENDS VerifCommon, Wild
 
 CONSTANT LinkLen            \* Link header credentials: all strings over LinkAlpha up to this length
@@ -135,6 +145,44 @@ HttpCase(proto, hdrs, decided, exp, l1) ==
      dev |-> IF decided /\ l1 # exp THEN "RtspBasicPasswordWithColon" ELSE ""]
 HasColon(s) == HasChar(Chars(s), ":")
 
+\* ---- several Authorization values: entries [scheme, form, user, pass, token]
+\*      basic/wf  "Basic base64(user:pass)"      basic/bad  a Basic value that is not base64
+\*      bearer/up "Bearer user:pass"  bearer/tok "Bearer token"  bearer/2c "Bearer a:b:c" (open: what is it?)
+HV(scheme, form, u, p, t) == [scheme |-> scheme, form |-> form, user |-> u, pass |-> p, token |-> t]
+HdrOf(h) == CASE h.form = "wf"  -> Basic(h.user, h.pass)
+              [] h.form = "bad" -> Raw("Basic !!!")
+              [] h.form = "up"  -> Raw("Bearer " \o h.user \o ":" \o h.pass)
+              [] OTHER          -> Raw("Bearer " \o h.token)
+YieldOf(h) == CASE h.form \in {"wf", "up"} -> Cred(h.user, h.pass, "")
+                [] h.form = "bad" -> NoCred
+                [] OTHER -> Cred("", "", h.token)
+BearerOverBasicDecided == TRUE      \* FALSE: which scheme wins is left open (only "no mixture" is judged)
+
+Yields(hs) == [i \in 1..Len(hs) |-> YieldOf(hs[i])]
+OfScheme(hs, sch) == SelectSeq(hs, LAMBDA h : h.scheme = sch)
+Has2c(hs) == \E i \in 1..Len(hs) : hs[i].form = "2c"
+\* the bare sentence: the yield of one of the values (of a well-formed one when another scheme is present too)
+Bare(hs) ==
+    LET b == OfScheme(hs, "basic")  r == OfScheme(hs, "bearer") IN
+    IF r = <<>> THEN Yields(b) ELSE IF b = <<>> THEN Yields(r)
+    ELSE Yields(r) \o Yields(SelectSeq(b, LAMBDA h : h.form = "wf"))
+Admitted(hs) ==
+    LET b == OfScheme(hs, "basic")  r == OfScheme(hs, "bearer") IN
+    IF BearerOverBasicDecided /\ b # <<>> /\ r # <<>> THEN Yields(r) ELSE Bare(hs)
+InSeq(x, sq) == \E i \in 1..Len(sq) : sq[i] = x
+\* layer 1, the code: the first Bearer value wins wherever it stands; otherwise only the FIRST value is looked at
+MultiL1(hs) == LET r == OfScheme(hs, "bearer") IN
+               IF r # <<>> THEN YieldOf(r[1]) ELSE IF hs = <<>> THEN NoCred ELSE YieldOf(hs[1])
+
+HPool == {HV("basic", "wf", "u1", "p1", ""), HV("basic", "wf", "u2", "p:2", ""), HV("basic", "bad", "", "", ""),
+          HV("bearer", "up", "u3", "p3", ""), HV("bearer", "up", "", "p4", ""), HV("bearer", "tok", "", "", "tok"),
+          HV("bearer", "2c", "", "", "a:b:c")}
+MultiCase(hs) ==
+    [fam |-> "http", headers |-> [i \in 1..Len(hs) |-> HdrOf(hs[i])], decided |-> ~Has2c(hs),
+     exp |-> Admitted(hs)[1], acc |-> Admitted(hs), bare |-> Bare(hs), l1 |-> MultiL1(hs), dev |-> ""]
+MultiCases == {MultiCase(<<a, b>>) : a \in HPool, b \in HPool}
+              \cup {MultiCase(<<a, b, c>>) : a \in HPool, b \in HPool, c \in HPool}
+
 HttpCases ==
     {HttpCase("http", <<Basic(u, p)>>, TRUE, Cred(u, p, ""), Cred(u, p, "")) : u \in HUsers, p \in HPasses}
     \cup {HttpCase("http", <<Raw("Bearer " \o u \o ":" \o p)>>, TRUE, Cred(u, p, ""), Cred(u, p, ""))
@@ -142,12 +190,7 @@ HttpCases ==
     \cup {HttpCase("http", <<Raw("Bearer " \o t)>>, TRUE, Cred("", "", t), Cred("", "", t)) : t \in Tokens}
     \* open: two colons are read as a token
     \cup {HttpCase("http", <<Raw("Bearer " \o t)>>, FALSE, NoCred, Cred("", "", t)) : t \in {"a:b:c", "u::", "::"}}
-    \* open: several headers (a Bearer header wins wherever it stands, else the first header)
-    \cup {HttpCase("http", <<Basic("u1", "p1"), Raw("Bearer tok")>>, FALSE, NoCred, Cred("", "", "tok")),
-          HttpCase("http", <<Raw("Bearer tok"), Basic("u1", "p1")>>, FALSE, NoCred, Cred("", "", "tok")),
-          HttpCase("http", <<Raw("Bearer t1"), Raw("Bearer u2:p2")>>, FALSE, NoCred, Cred("", "", "t1")),
-          HttpCase("http", <<Basic("u1", "p1"), Basic("u2", "p2")>>, FALSE, NoCred, Cred("u1", "p1", "")),
-          HttpCase("http", <<>>, TRUE, NoCred, NoCred),
+    \cup {          HttpCase("http", <<>>, TRUE, NoCred, NoCred),
     \* open: malformed / other schemes / letter case
           HttpCase("http", <<Raw("Basic !!!")>>, FALSE, NoCred, NoCred),
           HttpCase("http", <<Raw("Basic dXNlcg==")>>, FALSE, NoCred, NoCred),
@@ -169,7 +212,7 @@ RtspCases ==
           HttpCase("rtsp", <<Raw("Bearer tok")>>, FALSE, NoCred, NoCred)}
 
 \* ------------------------------------------------------------------ bounded model (generator)
-Parts == {<<"srt_custom", a>> : a \in Actions} \cup {<<"srt_std", m>> : m \in Modes} \cup {<<"srt_malformed", "">>}
+Parts == {<<"http_multi", "">>} \cup {<<"srt_custom", a>> : a \in Actions} \cup {<<"srt_std", m>> : m \in Modes} \cup {<<"srt_malformed", "">>}
          \cup {<<"link_user", c>> : c \in LinkAlpha \cup {""}} \cup {<<"link_cred", c>> : c \in LinkAlpha \cup {""}}
          \cup {<<"http", "">>, <<"rtsp", "">>}
 
@@ -180,6 +223,7 @@ CasesOf(p) ==
       [] p[1] = "link_user" -> {LinkCase(url, user, cred) : url \in Urls, user \in LinkStrings(p[2]), cred \in FixedCreds}
       [] p[1] = "link_cred" -> {LinkCase("stun:stun.example.com:3478", user, cred) : user \in FixedUsers, cred \in LinkStrings(p[2])}
       [] p[1] = "http" -> HttpCases
+      [] p[1] = "http_multi" -> MultiCases
       [] p[1] = "rtsp" -> RtspCases
 
 VARIABLES part, done
@@ -193,6 +237,7 @@ LayersAgreeWhereDecided ==
     done => \A c \in CasesOf(part) : c.decided =>
         IF c.fam = "link" THEN c.l1.user = c.exp.user /\ c.l1.cred = c.exp.cred /\ c.l1.err = c.exp.err
         ELSE IF c.fam = "srt" THEN c.l1 = c.exp
+        ELSE IF "acc" \in DOMAIN c THEN InSeq(c.l1, c.acc) /\ \A i \in 1..Len(c.acc) : InSeq(c.acc[i], c.bare)
         ELSE c.l1 = c.exp \/ c.dev # ""
 
 EmitCases == done => \A c \in CasesOf(part) : Emit("CASE", c)
